@@ -203,6 +203,8 @@ def run(res, tier, seed):
             continue
         seen_cases.add(str(m["case"]))
         cls, fields = classify(m)
+        if not res.findings.lookup(res.prop, cls, dict(fields)) and len(res.violations) < 8:
+            m["history"] = c12.case_events(wd, str(m["case"]))
         res.mismatch(cls, dict(fields), m)
     res.extra["c12_mismatches_seen_and_left_to_C12"] = c12_seen
     for v in verdicts_all:
@@ -211,7 +213,11 @@ def run(res, tier, seed):
     res.extra["mismatch_reports"] = len(mism)
 
 
+def _classify_any(m):
+    if m.get("kind") in ("msg", "rmsg", "axfr"):
+        return c12.classify(m)
+    return classify(m)
+
+
 def replay(res, path):
-    d = json.load(open(path))
-    print(json.dumps(d, indent=1)[:6000])
-    return 0
+    return c12.reproduce(res, path, crash=True, spec="Trace_Journal", classifier=_classify_any)
